@@ -529,6 +529,21 @@ def check_purity(case):
         W.call("DiscreteFactor.product(scalar, inplace=False)", a.product, 2.5, inplace=False)
         W.call("DiscreteFactor.divide(inplace=False)", a.divide, dv, inplace=False)
         W.call("DiscreteFactor.sum(inplace=False)", a.sum, b, inplace=False)
+        # the argument has the wider scope / the same scope in another axis order (the alignment code must work on a private copy)
+        W.call("DiscreteFactor.sum(wider operand, inplace=False)", b.sum, a, inplace=False)
+        W.call("DiscreteFactor.product(wider operand, inplace=False)", b.product, a, inplace=False)
+        W.call("DiscreteFactor.__add__(wider operand)", lambda: b + a)
+        if len(a.variables) >= 2:
+            import numpy as np
+            from pgmpy.factors.discrete import DiscreteFactor
+
+            rv = list(reversed(a.variables))
+            rev = DiscreteFactor(rv, [a.get_cardinality([v])[v] for v in rv], np.transpose(np.asarray(a.values)) + 0.25, state_names={v: list(a.state_names[v]) for v in rv})
+            W.add(rev=rev)
+            W.call("DiscreteFactor.sum(same scope, other axis order, inplace=False)", a.sum, rev, inplace=False)
+            W.call("DiscreteFactor.product(same scope, other axis order, inplace=False)", a.product, rev, inplace=False)
+            W.call("DiscreteFactor.divide(same scope, other axis order, inplace=False)", a.divide, rev, inplace=False)
+            W.call("factor_divide(same scope, other axis order)", factor_divide, a, rev)
         W.call("DiscreteFactor.__mul__", lambda: a * b)
         W.call("DiscreteFactor.__rmul__", lambda: b * a)
         W.call("DiscreteFactor.__truediv__", lambda: a / dv)
